@@ -180,6 +180,23 @@ def check(ctx):
                 ctx.fail_input(case, 'scalar / vector / matrix queries give inconsistently shaped answers: matrix %s, single row ndim %d'
                                % (mat.shape, np.ndim(row)))
                 continue
+        # matrix-shaped gradient query with zero-density rows in ANY position: row i is the gradient at row i
+        with np.errstate(all='ignore'):
+            order_rows = list(range(len(Xa)))
+            rng.shuffle(order_rows)
+            Xg = Xa[order_rows]
+            G = np.asarray(prior.gradient_logpdf(Xg))
+            G = G.reshape(len(Xg), -1)
+            lrow = np.ravel(prior.logpdf(Xg))
+            for i in range(len(Xg)):
+                if math.isfinite(lrow[i]):
+                    gi = np.ravel(prior.gradient_logpdf(Xg[i]))
+                    if np.all(np.isfinite(gi)) and not np.allclose(G[i], gi, rtol=1e-6, atol=1e-8):
+                        ctx.fail_input(dict(case, X=Xg.tolist(), row=i), 'row %d of a matrix-shaped gradient query is %s, the gradient at that point alone is %s '
+                                       '(rows with zero density elsewhere in the matrix)' % (i, G[i].tolist(), gi.tolist()), gi.tolist(), G[i].tolist())
+                        break
+        if ctx.failing:
+            continue
         # rvs: positive density, right shape
         rs = np.random.RandomState(rng.randrange(2**31))
         with np.errstate(all='ignore'):
